@@ -229,7 +229,8 @@ Proof.
   match goal with |- context [while_fuel0 _ ?F ?i] => rewrite (wn_loop_while F) end.
   - destruct (wn_loop bs p (mkCap (c_style c) (c_printable c) None)) as [[[bs1 p1] c1]|]; [|reflexivity].
     destruct c1 as [cs cp cr]. unfold is_empty, opt_unwrap_or, set_c_printable. cbn [c_style c_printable c_ready].
-    destruct cp; reflexivity.
+    (* the item: by cases on the text and on `ready`, so `ready.unwrap_or(style)` and a `match` / `if let` on `ready` all close *)
+    destruct cp; try reflexivity; destruct cr; reflexivity.
   - clear. intros bs p c. cbv beta iota zeta. unfold opt_is_none.
     destruct (c_ready c); [reflexivity|]. destruct bs as [|b rest]; [reflexivity|].
     rewrite g_advance_eq. destruct (advance cfg_default p b) as [[p1 evs]|]; cbn [acc app]; [|reflexivity].
